@@ -297,3 +297,58 @@ class Purity:
             if root == m.self_name and path:
                 out.append(path[0])
         return sorted(set(out))
+
+
+def unkeyed_memos(f: FuncDef):
+    """[(attribute, assignment node)]: `self.a = <something computed from a parameter of f>` under a test of
+    `self.a` itself (`if self.a is None:` / `if not self.a:`): the value computed for the arguments of the *first*
+    call is given for every later call, whatever its arguments"""
+    out = []
+    if not f.self_name:
+        return out
+    params = {p.arg for p in f.params if p.arg != f.self_name}
+    if not params:
+        return out
+    # locals derived from parameters (one step of propagation is enough for the idiom)
+    derived = set(params)
+    for _ in range(3):
+        for name, bs in f.local_bindings().items():
+            for b in bs:
+                if b[0] in ('assign', 'annassign') and b[1] is not None \
+                        and any(isinstance(x, ast.Name) and x.id in derived for x in ast.walk(b[1])):
+                    derived.add(name)
+    from ..core import ancestors
+    for n in walk_own(f.node):
+        if not isinstance(n, ast.Assign):
+            continue
+        for t in n.targets:
+            if not (isinstance(t, ast.Attribute) and isinstance(t.value, ast.Name) and t.value.id == f.self_name):
+                continue
+            if not any(isinstance(x, ast.Name) and x.id in derived for x in ast.walk(n.value)):
+                continue
+            for a in ancestors(n):
+                if a is f.node:
+                    break
+                if isinstance(a, ast.If):
+                    # the test says "not computed yet": self.a is None / not self.a (in the body),
+                    # self.a is not None / self.a (in the else branch)
+                    target = '%s.%s' % (f.self_name, t.attr)
+                    test, positive = a.test, True
+                    while isinstance(test, ast.UnaryOp) and isinstance(test.op, ast.Not):
+                        test, positive = test.operand, not positive
+                    unset = None
+                    if unparse(test) == target:
+                        unset = not positive
+                    elif isinstance(test, ast.Compare) and len(test.ops) == 1 and unparse(test.left) == target \
+                            and unparse(test.comparators[0]) == 'None':
+                        if isinstance(test.ops[0], (ast.Is, ast.Eq)):
+                            unset = positive
+                        elif isinstance(test.ops[0], (ast.IsNot, ast.NotEq)):
+                            unset = not positive
+                    if unset is None:
+                        continue
+                    in_body = any(n is x for s_ in a.body for x in ast.walk(s_))
+                    if in_body == unset:
+                        out.append((t.attr, n))
+                        break
+    return out
